@@ -257,7 +257,7 @@ func legSecKeys() {
 	otherRaw, _ := refsecp.PubKey(b32(bi(0x1234567)))
 	var otherPub cipher.PubKey
 	copy(otherPub[:], otherRaw)
-	nRand := r.Pick(1500, 40000)
+	nRand := r.Pick(1500, 25000)
 	vf.Parallel(len(cases)+nRand, runtime.NumCPU(), func(i int) {
 		if i < len(cases) {
 			c := cases[i]
@@ -473,7 +473,7 @@ func legPubKeys() {
 	var sec cipher.SecKey
 	copy(sec[:], b32(bi(0x7654321)))
 	fixed := fixedPubCases()
-	n := r.Pick(11000, 330000)
+	n := r.Pick(11000, 200000)
 	vf.Parallel(len(fixed)+n, runtime.NumCPU(), func(i int) {
 		if i < len(fixed) {
 			checkPub(fixed[i], sec)
@@ -524,7 +524,7 @@ func hashCase(g *rand.Rand, i int) (string, []byte) {
 }
 
 func legSign() {
-	n := r.Pick(960, 24000)
+	n := r.Pick(960, 15000)
 	edges := scalarCases()
 	vf.Parallel(n, runtime.NumCPU(), func(i int) {
 		g := r.Rand("sign", i)
@@ -910,7 +910,7 @@ func legSigs() {
 	otherRaw, _ := refsecp.PubKey(b32(bi(0xabcdef)))
 	var other cipher.PubKey
 	copy(other[:], otherRaw)
-	n := r.Pick(10000, 300000)
+	n := r.Pick(10000, 180000)
 	vf.Parallel(n, runtime.NumCPU(), func(i int) {
 		g := r.Rand("sig", i)
 		c := genSigCase(g, i)
@@ -934,7 +934,7 @@ func legSigs() {
 // shared secret leg
 
 func legECDH() {
-	n := r.Pick(1200, 24000)
+	n := r.Pick(1200, 15000)
 	edges := scalarCases()
 	vf.Parallel(n, runtime.NumCPU(), func(i int) {
 		g := r.Rand("ecdh", i)
@@ -1051,7 +1051,7 @@ func detNext(seed []byte) (newSeed, pub, sec []byte) {
 }
 
 func legDeterministic() {
-	n := r.Pick(300, 6000)
+	n := r.Pick(300, 4000)
 	vf.Parallel(n, runtime.NumCPU(), func(i int) {
 		g := r.Rand("det", i)
 		var seed []byte
@@ -1184,7 +1184,8 @@ func main() {
 		if q {
 			r.Floor(k, quick)
 		} else {
-			r.Floor(k, thorough)
+			// thorough sizes were trimmed to 60% for the time budget; floors follow
+			r.Floor(k, thorough*55/100)
 		}
 	}
 	r.Floor("scalar.boundary.hit:edge", 13)
